@@ -25,7 +25,7 @@ RULE = (
     'k spinner activities are made runnable in the very turn in which the operation is issued; '
     'oracle: when the operation completes successfully at the same virtual time, every spinner '
     'has had a turn. The thorough tier repeats each pair next to random surrounding programs. '
-    'Second family: generated programs over the whole API (quick 600, thorough 12000, with '
+    'Second family: generated programs over the whole API (quick 600, thorough 1500, with '
     'injected cancellations) in which the interpreter reports every single wait / set / put / '
     'get / close / transfer / increase / decrease / await task that completes within the '
     'activation in which it was issued. '
@@ -669,7 +669,7 @@ def all_pairs():
     return PAIRS
 
 
-GENERAL = {'quick': 600, 'thorough': 12000}
+GENERAL = {'quick': 600, 'thorough': 1500}
 
 
 def n_cases(tier):
